@@ -23,7 +23,7 @@ PROPS = {
                        T("TestVerifC09Policy", 12, 150, q_shards=6, shrinktime="0s", th_timeout=2400)]),
     "C10": dict(tests=[T("TestVerifC10", 60, 1200, pkg=".", shrinktime="0s")]),
     "C11": dict(tests=[T("TestVerifC11", 3000, 30000)]),
-    "C12": dict(level="fault_enumeration", evaluations_from_extra="c12_faulted_loads", tests=[T("TestVerifC12", 1, 30, q_shards=16, q_timeout=900)]),
+    "C12": dict(level="fault_enumeration", evaluations_from_extra="c12_faulted_loads", tests=[T("TestVerifC12", 1, 10, q_shards=16, q_timeout=900, th_timeout=3000)]),
     "C13": dict(tests=[T("TestVerifC13Group", 1500, 20000), T("TestVerifC13Store", 400, 6000, shrinktime="0s"),
                        T("TestVerifC13GroupStress", 25, 200, shrinktime="0s", gomaxprocs=[16, 4, 8, 16])]),
     "C14": dict(tests=[T("TestVerifC14", 2500, 30000)]),
